@@ -101,7 +101,7 @@ CANARIES = {
                         next.getText(),"""], "C10.path-step-kinds"),
         ("keyword-step-bare", "stix2/patterns.py", "text", ["if not _BARE_PATH_STEP_RE.match(x) or x in _PATTERN_KEYWORDS:", "if not _BARE_PATH_STEP_RE.match(x):"], "C10.step-quoting"),
         ("quoted-step-unescaped", "stix2/patterns.py", "text", ["return \"'\" + escape_quotes_and_backslashes(x) + \"'\"", "return \"'\" + x + \"'\""], "C10.step-quoting"),
-        ("empty-hex-refused", "stix2/patterns.py", "text", ["^h'(([a-fA-F0-9]{2})*)'$", "^h'(([a-fA-F0-9]{2})+)'$"], "C10.hex-literal-form"),
+        ("empty-hex-refused", "stix2/patterns.py", "text", ["^h'(([a-fA-F0-9]{2})*)'\\Z", "^h'(([a-fA-F0-9]{2})+)'\\Z"], "C10.hex-literal-form"),
         ("operand-root-types-aliased", "stix2/patterns.py", "text", ["self.root_types = set(arg.root_types)", "self.root_types = arg.root_types"], "C10.definite-init"),
         ("chain-extended-in-place", "stix2/pattern_visitor.py", "text", ['                return self.instantiate("OrBooleanExpression", children[0].operands + [children[2]])', '                children[0].operands.append(children[2])\n                return children[0]'], "C10.operator-table"),
         ("hex-validator-dollar", "stix2/patterns.py", "text", ["'^([a-fA-F0-9]{2})+\\Z'", "'^([a-fA-F0-9]{2})+$'"], "C10.hex-literal-form"),
